@@ -111,14 +111,16 @@ def run_jobs(jobs, nproc=None, seed=0, cross_check=True):
             log0 = os.path.join(scratch, 'q-%d-root.smt2' % ji)
             ex.cvc5_log = open(log0, 'w')
             ex.cvc5_log.write('(set-logic QF_BV)\n')
-            roots = ex.expand(split)
+            # expand well beyond the worker count and hand out small chunks: subtrees differ a lot in size, the pool
+            # then balances dynamically
+            roots = ex.expand(split * 12)
             ex.cvc5_log.close()
             r = _result(ex, job, None)
             r['wall'] = 0
             r['log'] = log0
             _merge(out, r)
-            n = max(1, min(len(roots), split))
-            chunks = [roots[i::n] for i in range(n)]
+            csize = 3
+            chunks = [roots[i:i + csize] for i in range(0, len(roots), csize)]
             for ci, ch in enumerate(chunks):
                 if ch:
                     tasks.append((job, ch, os.path.join(scratch, 'q-%d-%d.smt2' % (ji, ci)) if cross_check else None, seed))
@@ -127,7 +129,7 @@ def run_jobs(jobs, nproc=None, seed=0, cross_check=True):
     logs = [os.path.join(scratch, f) for f in os.listdir(scratch) if f.startswith('q-') and f.endswith('root.smt2')]
     ctxmp = mp.get_context('fork')
     with ctxmp.Pool(nproc) as pool:
-        for r in pool.imap_unordered(_work, tasks):
+        for r in pool.imap_unordered(_work, tasks, chunksize=1):
             _merge(out, r)
             if r.get('log'):
                 logs.append(r['log'])
